@@ -453,6 +453,14 @@ func (f *Factory) Bin(op Op, a, b *Term) *Term {
 			if b.C == mask(w) {
 				return a
 			}
+			// (x & y) & bit  ==  both x and y have the bit ? bit : 0   (keeps symbolic-by-symbolic bvand away
+			// from the solver, e.g. time.Time's wall&u.wall&hasMonotonic)
+			if b.C&(b.C-1) == 0 && a.Op == OBAnd && !a.Args[0].IsConst() && !a.Args[1].IsConst() {
+				zero := f.Const(a.Sort, 0)
+				x := f.Not(f.Eq(f.Bin(OBAnd, a.Args[0], b), zero))
+				y := f.Not(f.Eq(f.Bin(OBAnd, a.Args[1], b), zero))
+				return f.Ite(f.And(x, y), b, zero)
+			}
 		}
 	case OBOr:
 		if a == b {
